@@ -27,7 +27,7 @@ func isCborPkg(p *types.Package) bool {
 
 // strictModeField: the field holds a mode built with ExtraReturnErrors set (all stores).
 func (c *Ctx) strictModeValue(v ssa.Value, depth int) (bool, string) {
-	if depth > 6 {
+	if depth > 12 {
 		return false, "too deep"
 	}
 	switch x := v.(type) {
@@ -583,6 +583,38 @@ func (c *Ctx) ruleWorkDone(rule string) {
 					ofa, ok := ld.X.(*ssa.FieldAddr)
 					return ok && isMsg(ofa.X.Type()) && fieldName(ofa.X.Type(), ofa.Field) == "OutputData"
 				}
+				// and it is an object: on the wire a map. A map head that turned into an array head still decodes.
+				k3 := key(rule, c.M.Key(fn), sprintf("success result #%d only for a message whose output data is a map", cnt))
+				est3 := func(cond core.Cond) bool {
+					bin, ok := cond.V.(*ssa.BinOp)
+					if !ok || (bin.Op != token.EQL && bin.Op != token.NEQ) {
+						return false
+					}
+					for _, pr := range [][2]ssa.Value{{bin.X, bin.Y}, {bin.Y, bin.X}} {
+						kc, isCall := pr[0].(*ssa.Call)
+						if !isCall || reflectValueMethod(kc) != "Kind" {
+							continue
+						}
+						// reflect.Map == 21
+						if kk, isConst := core.ConstInt(pr[1]); !isConst || kk != 21 || (bin.Op == token.EQL) != cond.True {
+							continue
+						}
+						if vo := valueOfArg(kc.Call.Args[0]); vo != nil {
+							if ld, ok := core.Unwrap(vo).(*ssa.UnOp); ok {
+								if ofa, ok := ld.X.(*ssa.FieldAddr); ok && isMsg(ofa.X.Type()) && fieldName(ofa.X.Type(), ofa.Field) == "OutputData" {
+									return true
+								}
+							}
+						}
+					}
+					return false
+				}
+				if core.MustHold(fn, est3)[b] {
+					c.R.Ok(rule, k3, c.M.InstrPos(st), "success result built from a work-done message", "on every path reflect.ValueOf(output data).Kind() was found to be Map")
+				} else {
+					c.R.Bad(rule, k3, c.M.InstrPos(st), "a work-done message whose output data is not an object is turned into a success result",
+						"one changed byte in the head of the output data (map -> array) leaves a complete, decodable message: Execute reports success with a list where every output is an object")
+				}
 				if core.MustHold(fn, est2)[b] {
 					c.R.Ok(rule, k2, c.M.InstrPos(st), "success result built from a work-done message", "on every path the message's output data was found non-nil")
 				} else {
@@ -609,7 +641,9 @@ func (c *Ctx) ruleWorkDone(rule string) {
 // encoder writes, and a refused message ends the whole session; the encoder's default sends a nil slice or map as
 // null, which no list or map schema accepts. Obligations, over package atp:
 //   - no package-level cbor.Unmarshal / NewDecoder / Marshal / NewEncoder (they are the default modes);
-//   - every DecOptions value a DecMode is built from sets MaxNestedLevels, MaxArrayElements, MaxMapPairs and UTF8;
+//   - every DecOptions value a DecMode is built from sets MaxNestedLevels, MaxArrayElements, MaxMapPairs, UTF8 and
+//     DupMapKey (the default keeps the last of two entries whose keys encode alike: the transport would repair a map the
+//     schemas refuse as having duplicate keys after conversion);
 //   - every EncOptions value an EncMode is built from sets NilContainers.
 func (c *Ctx) ruleCodec(rule string) {
 	n := 0
@@ -636,7 +670,7 @@ func (c *Ctx) ruleCodec(rule string) {
 					k := key(rule, c.M.Key(fn), sprintf("%s #%d is built from options as wide as the schemas", short, cnt[short]))
 					set := map[string]bool{}
 					codecFieldsSet(call.Call.Args[0], set, 0)
-					want := []string{"MaxNestedLevels", "MaxArrayElements", "MaxMapPairs", "UTF8"}
+					want := []string{"MaxNestedLevels", "MaxArrayElements", "MaxMapPairs", "UTF8", "DupMapKey"}
 					if strings.Contains(name, "EncOptions") {
 						want = []string{"NilContainers"}
 					}
